@@ -85,6 +85,8 @@ type FnCtx struct {
 	specDone map[string]bool
 	entry    *State
 	abstractions map[string]bool
+	arrayElems   map[string][]string
+	faCount      int
 }
 
 type deferred struct {
@@ -134,6 +136,7 @@ type frame struct {
 	inlined bool
 	rets    []retSite
 	closures map[ssa.Value]*ssa.MakeClosure
+	unescaped map[*ssa.Alloc]bool
 	idom    map[*ssa.BasicBlock]*ssa.BasicBlock
 	paramTV map[string]TV
 }
@@ -176,7 +179,7 @@ func (fc *FnCtx) fact(tag, f string, a ...interface{}) {
 // ---------- state / components ----------
 
 func isHeapKey(k string) bool {
-	return strings.HasPrefix(k, "H:") || strings.HasPrefix(k, "C:") || strings.HasPrefix(k, "MV:") || strings.HasPrefix(k, "MD:") || strings.HasPrefix(k, "X:")
+	return strings.HasPrefix(k, "SM:") || strings.HasPrefix(k, "H:") || strings.HasPrefix(k, "C:") || strings.HasPrefix(k, "MV:") || strings.HasPrefix(k, "MD:") || strings.HasPrefix(k, "X:")
 }
 
 func (fc *FnCtx) compDecl(key, sort string) {
@@ -374,6 +377,18 @@ func (fc *FnCtx) readPath(term string, T types.Type, path []pathEl) (string, typ
 	return term, T
 }
 
+func (fc *FnCtx) arrayLit(s string, elems []string) string {
+	t := "emptynn_" + s
+	for _, e := range elems {
+		t = fmt.Sprintf("(build_%s %s %s)", s, t, e)
+	}
+	if fc.arrayElems == nil {
+		fc.arrayElems = map[string][]string{}
+	}
+	fc.arrayElems[t] = elems
+	return t
+}
+
 func (fc *FnCtx) writePath(term string, T types.Type, path []pathEl, v string) string {
 	if len(path) == 0 {
 		return v
@@ -388,6 +403,16 @@ func (fc *FnCtx) writePath(term string, T types.Type, path []pathEl, v string) s
 			el = u.Elem()
 		}
 		s := fc.P.SeqSort(fc.P.SortOf(el))
+		if elems, ok := fc.arrayElems[term]; ok && isDigits(pe.index) {
+			// array literal with known elements: rebuild the literal instead of a functional update
+			var i int
+			fmt.Sscan(pe.index, &i)
+			if i < len(elems) {
+				ne := append([]string{}, elems...)
+				ne[i] = fc.writePath(elems[i], el, path[1:], v)
+				return fc.arrayLit(s, ne)
+			}
+		}
 		inner := fc.writePath(fmt.Sprintf("(at_%s %s %s)", s, term, pe.index), el, path[1:], v)
 		return fmt.Sprintf("(upd_%s %s %s %s)", s, term, pe.index, inner)
 	}
@@ -507,7 +532,7 @@ func (fc *FnCtx) store(st *State, a *addr, v string) {
 func newFrame(fc *FnCtx, fn *ssa.Function, prefix string) *frame {
 	fr := &frame{fc: fc, fn: fn, prefix: prefix, vals: map[ssa.Value]string{}, addrs: map[ssa.Value]*addr{}, reach: map[*ssa.BasicBlock]string{},
 		edge: map[[2]int]string{}, back: map[[2]int]bool{}, ordinal: map[*ssa.BasicBlock]int{}, loopBlocks: map[*ssa.BasicBlock]map[*ssa.BasicBlock]bool{},
-		exit: map[*ssa.BasicBlock]*State{}, entrySt: map[*ssa.BasicBlock]*State{}, closures: map[ssa.Value]*ssa.MakeClosure{}, paramTV: map[string]TV{}}
+		exit: map[*ssa.BasicBlock]*State{}, entrySt: map[*ssa.BasicBlock]*State{}, closures: map[ssa.Value]*ssa.MakeClosure{}, paramTV: map[string]TV{}, unescaped: map[*ssa.Alloc]bool{}}
 	fr.analyzeLoops()
 	return fr
 }
@@ -710,6 +735,62 @@ func realLit(v constant.Value) string {
 	return t
 }
 
+// fieldAddrTerm: deterministic address of field i of the struct (sort ss) located at base.
+func (fc *FnCtx) fieldAddrTerm(ss string, i int, base string) string {
+	name := fmt.Sprintf("fa_%s_%d", ss, i)
+	if !fc.P.done["decl:"+name] {
+		fc.P.Declare("fakind", "(declare-fun fakind (Int) Int)")
+		fc.faCount++
+		fc.P.Declare(name, fmt.Sprintf("(declare-fun %s (Int) Int)\n(declare-fun inv_%s (Int) Int)\n(assert (forall ((r Int)) (! (and (= (inv_%s (%s r)) r) (= (fakind (%s r)) %d) (> (%s r) 0)) :pattern ((%s r)))))", name, name, name, name, name, int(hashString(name)%1000000)+1, name, name))
+	}
+	return fmt.Sprintf("(%s %s)", name, base)
+}
+
+func (fc *FnCtx) elemAddrTerm(base, idx string) string {
+	fc.P.Declare("ea_elem", "(declare-fun ea_elem (Int Int) Int)\n(assert (forall ((r Int) (i Int)) (! (> (ea_elem r i) 0) :pattern ((ea_elem r i)))))")
+	return fmt.Sprintf("(ea_elem %s %s)", base, idx)
+}
+
+// addrTerm: the pointer value denoting a symbolic address.
+func (fc *FnCtx) addrTerm(a *addr) (string, bool) {
+	var base string
+	T := a.T
+	switch a.kind {
+	case 2:
+		base = a.ref
+	case 3:
+		s := fc.P.SortOf(a.seqT)
+		name := "seqaddr_" + s
+		fc.P.Declare(name, fmt.Sprintf("(declare-fun %s (%s) Int)", name, s))
+		base = fmt.Sprintf("(%s %s)", name, a.seq)
+		T = a.seqT
+	case 4:
+		base = "gaddr_" + mangle(a.glob.String())
+		fc.declare(base, "Int")
+	default:
+		return "", false
+	}
+	for _, pe := range a.path {
+		if pe.isIdx {
+			base = fc.elemAddrTerm(base, pe.index)
+			switch u := T.Underlying().(type) {
+			case *types.Array:
+				T = u.Elem()
+			case *types.Slice:
+				T = u.Elem()
+			}
+			continue
+		}
+		st, ok := T.Underlying().(*types.Struct)
+		if !ok {
+			return "", false
+		}
+		base = fc.fieldAddrTerm(fc.P.SortOf(T), pe.field, base)
+		T = st.Field(pe.field).Type()
+	}
+	return base, true
+}
+
 // addrAsValue: pointer value for a symbolic address (needed when an interior pointer escapes into a call or a return).
 func (fr *frame) addrAsValue(v ssa.Value, a *addr) string {
 	fc := fr.fc
@@ -719,7 +800,10 @@ func (fr *frame) addrAsValue(v ssa.Value, a *addr) string {
 	if n, ok := fr.vals[v]; ok {
 		return n
 	}
-	// interior pointer: an opaque non-nil reference determined by base and path
+	if t, ok := fc.addrTerm(a); ok {
+		return t
+	}
+	// address of a local: an opaque non-nil reference
 	n := fc.declare(fr.name(v), "Int")
 	fr.vals[v] = n
 	fc.fact("", "(> %s 0)", n)
